@@ -301,6 +301,43 @@ func runFragRecv(c *FragRecvCase) *sim.Outcome {
 			if !midStream && completed > 0 {
 				completedThenMore = true
 			}
+		case "otherformat":
+			// all pieces but the last arrive; then a piece with the right index in the other version's header format
+			// (tag-less under version 3, tagged under version 2) and a payload of its own; then the genuine last piece.
+			// Nothing but the genuine message may ever come out.
+			if next >= len(cur) || len(cur) < 2 {
+				newMsg(false)
+				if len(cur) < 2 {
+					continue
+				}
+			}
+			for ; next < len(cur)-1; next++ {
+				f := ref.Fragment{V3: v3, K: next + 1, N: len(cur), Payload: cur[next]}
+				if next == 0 {
+					ambiguous = false
+				}
+				if !expect(send(f.K, f.N, f.Payload, peer, own), f, fmt.Sprintf("piece %d of %d", f.K, f.N)) {
+					return o
+				}
+			}
+			k := len(cur)
+			if ev.A%3 == 2 {
+				k = 1 // a first piece in the other format: must not restart the reassembly with foreign content either
+			}
+			c2 := m.AReceive(ref.MakeFragment(!v3, peer, own, k, len(cur), []byte("Zm9yZWlnbiBwaWVjZQ")))
+			if c2.HasPl {
+				return o.Fail("C14/spurious-delivery", "a piece in the other version's header format (index %d of %d) joined a reassembly: Receive returned %.60q", k, len(cur), c2.Plain)
+			}
+			c3 := send(len(cur), len(cur), cur[len(cur)-1], peer, own)
+			want := curText
+			if c3.HasPl && !bytes.Equal(c3.Plain, want) {
+				return o.Fail("C14/spurious-delivery", "after a piece in the other header format the genuine last piece made Receive return %.60q, which is not the message that was sent", c3.Plain)
+			}
+			next = len(cur)
+			ambiguous = true
+			model = ref.Reassembler{}
+			oddMid = true
+			o.Class("other-header-format")
 		case "foreign":
 			if !v3 {
 				continue
@@ -426,7 +463,7 @@ func TestProp_C14_Sizes(t *testing.T) {
 
 func TestProp_C14_Recv(t *testing.T) {
 	defer sim.MarkCompleted("C14recv", false)
-	kinds := []string{"next", "next", "next", "next", "next", "next", "restart", "wrongtotal", "dup", "skip", "zero", "over", "foreign", "garbage", "plain", "data"}
+	kinds := []string{"next", "next", "next", "next", "next", "next", "restart", "wrongtotal", "dup", "skip", "zero", "over", "foreign", "otherformat", "otherformat", "garbage", "plain", "data"}
 	rapid.Check(t, func(rt *rapid.T) {
 		c := &FragRecvCase{Cfg: genSessCfg(rt), N: rapid.IntRange(0, 4).Draw(rt, "n")}
 		c.Cfg.FragA, c.Cfg.FragB = 0, 0
